@@ -289,7 +289,7 @@ func runCosetErrors() {
 			}
 		}
 	}
-	chk.Range("errors whose locators are a coset of roots of unity (locator polynomial 1 + c*x^e, one non-constant term): 6 fields x every divisor e of |F|-1 in 2..40 x start positions {0, 1, s-1} x 3 magnitude sets, full-length code with 2e+2 parity symbols: each word must be restored exactly", len(jobs),
+	chk.Range("errors whose locators are a coset of roots of unity (locator polynomial 1 + c*x^e, one non-constant term): 6 fields x every divisor e of |F|-1 in 2..40 x start positions {0, 1, s-1} x 3 magnitude sets, full-length code with 2e+2 parity symbols; and TWO such cosets together (4e+2 parity symbols, equal magnitudes inside each coset / everywhere / mixed: every Euclidean quotient has degree e): each word must be restored exactly", len(jobs),
 		func(i int) string { return fmt.Sprint(fields[jobs[i].f].name, " e=", jobs[i].e) },
 		func(l *mc.Local, i int) {
 			j := jobs[i]
@@ -329,5 +329,45 @@ func runCosetErrors() {
 				}
 			}
 			l.Distinct("nontrivial", fmt.Sprint("coset", f.name, j.e))
+			// TWO cosets, equal magnitudes inside each: the syndrome polynomial has non-zero
+			// coefficients only at multiples of e, every Euclidean quotient has degree e and is as
+			// sparse, and so are the intermediate locator polynomials they are multiplied with - long
+			// polynomials full of zero coefficients on both sides of every product
+			if 4*j.e+2 < n {
+				r2 := 4*j.e + 2
+				k2 := n - r2
+				data2 := make([]int, k2)
+				for q := range data2 {
+					data2[q] = (q*23 + 1) % f.ref.Size
+				}
+				word2 := encode(l, f, rs.NewReedSolomonEncoder(f.lib), data2, r2)
+				if word2 == nil {
+					return
+				}
+				for _, gap := range []int{1, 2, s / 2} {
+					if gap <= 0 || gap >= s {
+						continue
+					}
+					pos := make([]int, 0, 2*j.e)
+					for q := 0; q < j.e; q++ {
+						pos = append(pos, q*s, gap+q*s)
+					}
+					for ms := 0; ms < 3; ms++ {
+						mag := make([]int, len(pos))
+						for q := range mag {
+							switch ms {
+							case 0: // the same magnitude everywhere
+								mag[q] = 1
+							case 1: // one magnitude per coset
+								mag[q] = []int{3, f.ref.Size - 2}[q%2]
+							default:
+								mag[q] = 1 + (q*31+gap*5)%(f.ref.Size-1)
+							}
+						}
+						decodeWord(l, f, word2, k2, r2, pos, mag)
+						l.Count("double_coset_words", 1)
+					}
+				}
+			}
 		})
 }
